@@ -88,7 +88,7 @@ pub const NUM_TOKENS: &[&str] = &[
     "#x42", "#xDEADBEEF", "#x-23", "#b1010", "#b-100", "#o0777", "#d99", "#xff", "#x+1F", "#e1", "#b102", "#o8",
     "#x10000000000000000", "#b11111111111111111111111111111111111111111111111111111111111111111", "123456789012345678901234567890",
     "1.7976931348623157e308", "1e400", "1e-400", "0.1", "0.30000000000000004", "100000000000000000000.5", "1.e3", "1.5e", "1e+", "1e-",
-    "3.", "3.e", "12345678901234567890.12345678901234567890e10", "1e2147483648", "1e-2147483649", "0e99999999999", "2e308", "9007199254740993",
+    "3.", "3.e", "0.000001", "0.0000001234", "100000000000000000000000.0", "0.1e-5", "-0.000001", "12345678.9e-20", "12345678901234567890.12345678901234567890e10", "1e2147483648", "1e-2147483649", "0e99999999999", "2e308", "9007199254740993",
 ];
 pub const NEAR_MISS: &[&str] = &[
     "1+", "1-", "1/2", "1.5.6", "0x10", "12ab", "1e3x", ":a", "a:", ":a:", "::", ":", "nil", "nil:", "nilx", "t", "tt", "#nil", "#n", "#t", "#f",
